@@ -611,7 +611,27 @@ impl<E: El, I: Item<E>> World<E, I> {
 
     fn drain_all(&mut self, st: &mut Stats) -> Result<Polled, Violation> {
         let cx = Ctx { step: self.step, prop: self.cfg.prop, model: &self.vec, alive: self.alive };
-        let r = self.main.drain(&cx, st)?;
+        let r = match self.main.drain(&cx, st) {
+            Ok(r) => r,
+            Err(e) => {
+                // Not this property's oracle (e.g. the subscriber stream ended
+                // early, C08): what C13 says about the two flavours still
+                // applies to what was delivered up to here.
+                if e.prop != cx.prop && cx.prop == "C13" {
+                    if let Some(t) = self.twin.as_mut() {
+                        if t.drain(&cx, st).is_ok() && t.flat_out != self.main.flat_out {
+                            return Err(viol(
+                                "C13",
+                                self.step,
+                                "batched-differs-from-unbatched",
+                                format!("batched stream delivered {:?} (then: {}), the unbatched stream {:?}", self.main.flat_out, e.sig, t.flat_out),
+                            ));
+                        }
+                    }
+                }
+                return Err(e);
+            }
+        };
         if let Some(t) = self.twin.as_mut() {
             let r2 = t.drain(&cx, st)?;
             if r2 != r {
